@@ -10,6 +10,13 @@ right end of the list.  `os = obsOf I scs` are the outcomes as the loop sees the
 number of failures at the end of `l` (`le_trail_iff`: `T ≤ trail l` iff the last `T` outcomes exist
 and all failed).  The literal `I / 2`, the `< 1 → 1` normalisation and the tolerance test in the
 statements are checked against the expressions regenerated from mcp/shared.go.
+
+A script may describe a ping that OVERRUNS its deadline (`honours = false`: its write is blocked for
+as long as the peer does not read).  The decisions of the loop (`closes_iff_T_consecutive`,
+`answer_resets`, …) do not depend on how long pings last; the instants do: the general schedule is
+`pings_at_pending_ticks`, the statements in terms of the tick grid (`pings_at_ticks`,
+`close_time_bound`, `cancel_ends_promptly`) carry the hypothesis that the pings concerned honour their
+context, and `overrun_does_not_poison_next_ping` says what an overrun must not do.
 -/
 namespace KeepAlive
 open Generated.KeepAlive
@@ -23,11 +30,11 @@ theorem ping_timeout_half (I : Nat) : pingTimeout I = I / 2 := rfl
 /-- The loop stops silently exactly on the JSON-RPC method-not-found error. -/
 theorem stop_sentinel : stopSentinel = "jsonrpc2.ErrMethodNotFound" := by decide
 
-/-- Every ping is over before the next tick (so the ticker never drops a tick and "the k-th ping"
-is "tick k"): it lasts at most `I / 2 < I`. -/
-theorem ping_done_before_next_tick (I : Nat) (hI : 0 < I) (sc : Script) :
+/-- Every ping that honours its context is over before the next tick (so the ticker never drops a
+tick and "the k-th ping" is "tick k"): it lasts at most `I / 2 < I`. -/
+theorem ping_done_before_next_tick (I : Nat) (hI : 0 < I) (sc : Script) (hh : sc.honours = true) :
     (observe (pingTimeout I) sc).dur ≤ I / 2 ∧ (observe (pingTimeout I) sc).dur < I := by
-  have := observe_dur_le (pingTimeout I) sc
+  have := observe_dur_le (pingTimeout I) sc hh
   simp only [pingTimeout] at this ⊢
   omega
 
@@ -202,37 +209,119 @@ theorem answer_after_misses_keeps_alive (I : Nat) (t0 : Int) (pre misses : List 
   obtain ⟨a1, a2, a3⟩ := answer_resets I t0 (pre ++ misses) sc d (by rw [hmid]; exact m1) hok
   exact ⟨a1, a2, by rw [a3, hmid, m3, hpre]⟩
 
-/-- **close_time_bound.** If the loop closes the session at tick `k`, then `T ≤ k`, the first miss of
-the failing run was the ping of tick `k + 1 - T`, issued at `(k + 1 - T)·I`, and `Close` is called
-at an instant `c` with `k·I ≤ c ≤ k·I + I/2`: i.e. within `T - 1` further intervals plus one ping
-timeout (`I/2`) of that first miss, and strictly before tick `k + 1`. -/
+/-- How the state's clock relates to the served pings: either nothing was pinged yet, or the last
+ping was issued at `last`, one of `pings`, and ended at `free = last + (its duration)`. -/
+theorem run_clock (I : Nat) (t0 : Int) (scs : List Script) :
+    ((run I t0 scs).tick = 0 ∧ (run I t0 scs).free = 0 ∧ (run I t0 scs).last = 0) ∨
+    ∃ sc, scs[(run I t0 scs).tick - 1]? = some sc ∧ 1 ≤ (run I t0 scs).tick ∧
+      (run I t0 scs).free = (run I t0 scs).last + (observe (pingTimeout I) sc).dur ∧
+      (run I t0 scs).last ∈ (run I t0 scs).pings := by
+  obtain ⟨⟨hp, hl, hf⟩, hst⟩ := inv_run I t0 scs
+  have htl : (run I t0 scs).tick ≤ (obsOf I scs).length := by
+    cases hs : (run I t0 scs).status with
+    | running => rw [hs] at hst; omega
+    | closed => rw [hs] at hst; obtain ⟨d, _, h2, _⟩ := hst; omega
+    | stopped => rw [hs] at hst; obtain ⟨d, _, h2, _⟩ := hst; omega
+  generalize (run I t0 scs).tick = k at *
+  cases k with
+  | zero => left; simp [hl, hf, pStart_zero]
+  | succ j =>
+    right
+    have hlen : (obsOf I scs).length = scs.length := by simp [obsOf]
+    have hj : j < scs.length := by omega
+    refine ⟨scs[j], by simp [List.getElem?_eq_getElem hj], by omega, ?_, ?_⟩
+    · have ho : (obsOf I scs)[j]? = some (observe (pingTimeout I) scs[j]) := by
+        simp [obsOf, List.getElem?_eq_getElem hj]
+      rw [hl, hf]; exact (pStart_succ I _ j _ ho).2
+    · rw [hp, tm_pings, hl]
+      simp only [List.mem_map, List.mem_range, List.length_take]
+      refine ⟨j, by omega, ?_⟩
+      unfold pStart
+      rw [List.take_take, Nat.min_self]
+
+/-- The pings of a run whose scripts all last less than an interval (in particular: that all honour
+their context) are issued exactly on the ticks. -/
+theorem run_on_grid (I : Nat) (hI : 0 < I) (t0 : Int) (scs : List Script)
+    (hh : ∀ sc ∈ scs, (observe (pingTimeout I) sc).dur < I) :
+    (run I t0 scs).pings = tickTimes I (run I t0 scs).tick ∧
+      (run I t0 scs).last = (run I t0 scs).tick * I := by
+  obtain ⟨⟨hp, hl, _⟩, hst⟩ := inv_run I t0 scs
+  have htl : (run I t0 scs).tick ≤ (obsOf I scs).length := by
+    cases hs : (run I t0 scs).status with
+    | running => rw [hs] at hst; omega
+    | closed => rw [hs] at hst; obtain ⟨d, _, h2, _⟩ := hst; omega
+    | stopped => rw [hs] at hst; obtain ⟨d, _, h2, _⟩ := hst; omega
+  have hshort : ∀ o ∈ obsOf I scs, o.dur < I := by
+    intro o ho
+    simp only [obsOf, List.mem_map] at ho
+    obtain ⟨sc, hsc, rfl⟩ := ho
+    exact hh sc hsc
+  refine ⟨?_, by rw [hl]; exact (pStart_grid I hI _ hshort _ htl).1⟩
+  rw [hp, tm_pings]
+  simp only [tickTimes, List.length_take, Nat.min_eq_left htl]
+  apply List.map_congr_left
+  intro j hj
+  have hj' : j < (run I t0 scs).tick := by simpa using hj
+  have hshort' : ∀ o ∈ (obsOf I scs).take (run I t0 scs).tick, o.dur < I :=
+    fun o ho => hshort o (List.mem_of_mem_take ho)
+  exact (pStart_grid I hI _ hshort' (j + 1) (by rw [List.length_take]; omega)).1
+
+theorem honours_short (I : Nat) (hI : 0 < I) (scs : List Script) (hh : ∀ sc ∈ scs, sc.honours = true) :
+    ∀ sc ∈ scs, (observe (pingTimeout I) sc).dur < I :=
+  fun sc hsc => (ping_done_before_next_tick I hI sc (hh sc hsc)).2
+
+/-- **close_time_bound.** If the loop closes the session with ping `k` (the `T`-th consecutive miss;
+`T ≤ k`), `Close` is called when that ping is over: at `c = last + (its duration)`, `last` being the
+instant it was issued; when that ping honoured its context, at most one ping timeout (`I/2`) after
+`last`.  When all pings honour their context the closing ping is the one of tick `k`, the first miss of
+the failing run was the ping of tick `k + 1 - T`, issued at `(k + 1 - T)·I`, and
+`k·I ≤ c ≤ k·I + I/2`: i.e. within `T - 1` further intervals plus one ping timeout of that first
+miss, and strictly before tick `k + 1`. -/
 theorem close_time_bound (I : Nat) (t0 : Int) (scs : List Script)
     (hc : (run I t0 scs).status = .closed) :
     ∃ c, (run I t0 scs).closeAt = some c ∧ threshold t0 ≤ (run I t0 scs).tick ∧
-      (run I t0 scs).tick * I ≤ c ∧ c ≤ (run I t0 scs).tick * I + I / 2 ∧
-      c ≤ ((run I t0 scs).tick + 1 - threshold t0) * I + (threshold t0 - 1) * I + I / 2 ∧
-      (0 < I → c < ((run I t0 scs).tick + 1) * I) := by
+      c = (run I t0 scs).free ∧ (run I t0 scs).last ≤ c ∧
+      (∀ sc, scs[(run I t0 scs).tick - 1]? = some sc → sc.honours = true →
+        c ≤ (run I t0 scs).last + I / 2) ∧
+      ((∀ sc ∈ scs, sc.honours = true) → 0 < I →
+        (run I t0 scs).last = (run I t0 scs).tick * I ∧
+        (run I t0 scs).tick * I ≤ c ∧ c ≤ (run I t0 scs).tick * I + I / 2 ∧
+        c ≤ ((run I t0 scs).tick + 1 - threshold t0) * I + (threshold t0 - 1) * I + I / 2 ∧
+        c < ((run I t0 scs).tick + 1) * I) := by
+  have hclk := run_clock I t0 scs
   obtain ⟨_, hst⟩ := inv_run I t0 scs
   rw [hc] at hst
   obtain ⟨d, h1, h2, h3, h4, h5, h6, h7⟩ := hst
-  generalize (run I t0 scs).tick = k at *
-  have hTk : threshold t0 ≤ k := by
-    have := trail_le_length ((obsOf I scs).take k)
+  have hTk : threshold t0 ≤ (run I t0 scs).tick := by
+    have := trail_le_length ((obsOf I scs).take (run I t0 scs).tick)
     rw [List.length_take] at this
     omega
-  have hd : d ≤ I / 2 := by
-    have hmem : Outcome.fail d ∈ obsOf I scs := List.mem_of_getElem? h3
-    simp only [obsOf, List.mem_map] at hmem
-    obtain ⟨sc, _, hsc⟩ := hmem
-    have := observe_dur_le (pingTimeout I) sc
-    rw [hsc] at this
-    simpa [Outcome.dur, pingTimeout] using this
+  rcases hclk with ⟨h0, _⟩ | ⟨sc, hsc, _, hfree, _⟩
+  · omega
+  have hod : observe (pingTimeout I) sc = .fail d := by
+    simp only [obsOf, List.getElem?_map, hsc, Option.map_some, Option.some.injEq] at h3
+    exact h3
+  have hfd : (run I t0 scs).free = (run I t0 scs).last + d := by rw [hfree, hod]; rfl
+  have hhon : ∀ sc', scs[(run I t0 scs).tick - 1]? = some sc' → sc'.honours = true →
+      (run I t0 scs).last + d ≤ (run I t0 scs).last + I / 2 := by
+    intro sc' hsc' hh'
+    rw [hsc] at hsc'
+    injection hsc' with hsc'
+    subst hsc'
+    have := observe_dur_le (pingTimeout I) sc hh'
+    rw [hod] at this
+    simp only [Outcome.dur, pingTimeout] at this
+    omega
+  refine ⟨(run I t0 scs).last + d, h4, hTk, hfd.symm, by omega, hhon, ?_⟩
+  intro hall hI
+  have hgrid := (run_on_grid I hI t0 scs (honours_short I hI scs hall)).2
+  have hd := hhon sc hsc (hall sc (List.mem_of_getElem? hsc))
+  generalize (run I t0 scs).tick = k at *
   have hsum : (k + 1 - threshold t0) * I + (threshold t0 - 1) * I = k * I := by
     rw [← Nat.add_mul]
     have hpos := threshold_pos t0
     congr 1; omega
-  refine ⟨k * I + d, h4, hTk, by omega, by omega, by omega, ?_⟩
-  intro hI
+  refine ⟨hgrid, by omega, by omega, by omega, ?_⟩
   rw [Nat.add_mul]; omega
 
 /-- Once the goroutine has returned nothing happens any more: no further ping, no second `Close`. -/
@@ -247,8 +336,8 @@ theorem terminal_absorbing (I T : Nat) (s : St) (sc : Script) (h : s.status ≠ 
 /-- **silent_stop.** (1) If the loop ended without closing, it ended on a method-not-found outcome and
 `Close` was never called.  (2) Cancellation (`*cancelPtr`, called by the sessions' `Close`) always
 ends the loop and never closes anything by itself: with cancellation at `tc` the loop closes iff it
-would have closed on the ticks before `tc`, at the same instant, after the same pings.  (That the
-ticker is stopped and the goroutine returns in every terminal state is the structural fact
+would have closed on the pings issued before `tc`, at the same instant, after the same pings.  (That
+the ticker is stopped and the goroutine returns in every terminal state is the structural fact
 `keepalive.goroutine` — `defer ticker.Stop()`, every exit is a `return` — and is observed by the
 harness: goroutine count and no activity after the end.) -/
 theorem silent_stop (I : Nat) (t0 : Int) (scs : List Script) :
@@ -256,10 +345,10 @@ theorem silent_stop (I : Nat) (t0 : Int) (scs : List Script) :
       (run I t0 scs).closeAt = none ∧
       ∃ d, (obsOf I scs)[(run I t0 scs).tick - 1]? = some (.mnf d)) ∧
     (∀ tc, (runCancel I t0 scs tc).status ≠ .running ∧
-      (runCancel I t0 scs tc).closeAt = (run I t0 (scs.take (ticksBefore I tc))).closeAt ∧
-      (runCancel I t0 scs tc).pings = (run I t0 (scs.take (ticksBefore I tc))).pings ∧
+      (runCancel I t0 scs tc).closeAt = (run I t0 (scs.take (pingsBefore I tc scs))).closeAt ∧
+      (runCancel I t0 scs tc).pings = (run I t0 (scs.take (pingsBefore I tc scs))).pings ∧
       ((runCancel I t0 scs tc).status = .closed ↔
-        (run I t0 (scs.take (ticksBefore I tc))).status = .closed)) := by
+        (run I t0 (scs.take (pingsBefore I tc scs))).status = .closed)) := by
   constructor
   · intro hs
     obtain ⟨_, hst⟩ := inv_run I t0 scs
@@ -268,29 +357,171 @@ theorem silent_stop (I : Nat) (t0 : Int) (scs : List Script) :
     exact ⟨h4, d, h3⟩
   · intro tc
     unfold runCancel
-    cases hs : (run I t0 (scs.take (ticksBefore I tc))).status <;> simp [hs]
+    cases hs : (run I t0 (scs.take (pingsBefore I tc scs))).status <;> simp [hs]
 
-/-- **pings_at_ticks.** The loop pings exactly at the ticks `I, 2I, …, m·I` it has consumed, at most
-one per script. -/
-theorem pings_at_ticks (I : Nat) (t0 : Int) (scs : List Script) :
-    (run I t0 scs).pings = tickTimes I (run I t0 scs).tick ∧ (run I t0 scs).tick ≤ scs.length := by
-  obtain ⟨hp, hst⟩ := inv_run I t0 scs
-  refine ⟨hp, ?_⟩
+theorem run_tick_le_length (I : Nat) (t0 : Int) (scs : List Script) :
+    (run I t0 scs).tick ≤ scs.length := by
+  obtain ⟨_, hst⟩ := inv_run I t0 scs
   have hlen : (obsOf I scs).length = scs.length := by simp [obsOf]
   cases hs : (run I t0 scs).status with
   | running => rw [hs] at hst; omega
   | closed => rw [hs] at hst; obtain ⟨d, _, h2, _⟩ := hst; omega
   | stopped => rw [hs] at hst; obtain ⟨d, _, h2, _⟩ := hst; omega
 
+/-- **pings_at_ticks.** When every ping honours its context, the loop pings exactly at the ticks
+`I, 2I, …, m·I` it has consumed; in any case at most one ping per script. -/
+theorem pings_at_ticks (I : Nat) (t0 : Int) (scs : List Script) :
+    ((∀ sc ∈ scs, sc.honours = true) → 0 < I →
+      (run I t0 scs).pings = tickTimes I (run I t0 scs).tick) ∧
+    (run I t0 scs).tick ≤ scs.length :=
+  ⟨fun hh hI => (run_on_grid I hI t0 scs (honours_short I hI scs hh)).1, run_tick_le_length I t0 scs⟩
+
+/-- **pings_at_pending_ticks** — the schedule in general (pings may overrun their deadline).  The
+loop's pings are the first `m` pings of the schedule `pingStart`/`pingEnd`, where ping `k+1` is
+issued at the first tick of the grid after ping `k` was issued — or, if ping `k` was still in flight
+then, the moment ping `k` ends (the ticker keeps one tick pending and drops the others) — and ends
+after its duration.  So: never two pings at once, never more than one ping per tick, after an overrun
+the pending tick is served at once and the following pings are on the grid again. -/
+theorem pings_at_pending_ticks (I : Nat) (t0 : Int) (scs : List Script) :
+    (run I t0 scs).pings = (List.range (run I t0 scs).tick).map (fun j => pingStart I scs (j + 1)) ∧
+    pingStart I scs 0 = 0 ∧ pingEnd I scs 0 = 0 ∧
+    (∀ k sc, scs[k]? = some sc →
+      pingStart I scs (k + 1) = max (pingEnd I scs k) (gridAfter I (pingStart I scs k)) ∧
+      pingEnd I scs (k + 1) = pingStart I scs (k + 1) + (observe (pingTimeout I) sc).dur) := by
+  obtain ⟨⟨hp, _, _⟩, _⟩ := inv_run I t0 scs
+  have htl := run_tick_le_length I t0 scs
+  have hlen : (obsOf I scs).length = scs.length := by simp [obsOf]
+  refine ⟨?_, (pStart_zero I _).1, (pStart_zero I _).2, ?_⟩
+  · rw [hp, tm_pings]
+    simp only [List.length_take, Nat.min_eq_left (by omega : (run I t0 scs).tick ≤ (obsOf I scs).length)]
+    apply List.map_congr_left
+    intro j hj
+    have hj' : j < (run I t0 scs).tick := by simpa using hj
+    unfold pingStart pStart
+    rw [List.take_take, Nat.min_eq_left (by omega)]
+  · intro k sc hsc
+    have ho : (obsOf I scs)[k]? = some (observe (pingTimeout I) sc) := by
+      simp [obsOf, hsc]
+    exact pStart_succ I _ k _ ho
+
+/-- Between two consecutive pings of the schedule (interval `I > 0`): the next one is issued after the
+previous one has ended, strictly later than it was issued, at most one interval later unless the
+previous ping was still in flight then — in which case exactly when it ends. -/
+theorem next_ping_bounds (I : Nat) (hI : 0 < I) (scs : List Script) (k : Nat) (hk : k < scs.length) :
+    pingEnd I scs k ≤ pingStart I scs (k + 1) ∧ pingStart I scs k < pingStart I scs (k + 1) ∧
+      (pingStart I scs (k + 1) ≤ pingStart I scs k + I ∨ pingStart I scs (k + 1) = pingEnd I scs k) := by
+  have hsc : scs[k]? = some scs[k] := List.getElem?_eq_getElem hk
+  obtain ⟨h1, _⟩ := (pings_at_pending_ticks I 0 scs).2.2.2 k _ hsc
+  have hg := gridAfter_gt I (pingStart I scs k) hI
+  have hl := gridAfter_le I (pingStart I scs k)
+  rw [h1]
+  refine ⟨Nat.le_max_left _ _, by omega, ?_⟩
+  rcases Nat.le_total (pingEnd I scs k) (gridAfter I (pingStart I scs k)) with h | h
+  · left; rw [Nat.max_eq_right h]; exact hl
+  · right; exact Nat.max_eq_left h
+
+/-- **overrun_does_not_poison_next_ping.** Let a ping miss in any way and last however long — in
+particular overrun its deadline by any amount because the peer did not read — and let the loop
+tolerate that miss.  The next ping is issued at the pending tick (at the end of the overrun if a tick
+fired meanwhile, else at the next tick of the grid) and is judged against a FRESH ping timeout,
+counted from the instant it is issued: if the peer answers it within `pingTimeout I`, it counts as
+answered, the failure counter is back to 0 and the session is not closed. -/
+theorem overrun_does_not_poison_next_ping (I : Nat) (t0 : Int) (pre : List Script) (ov nxt : Script)
+    (d : Nat) (hr : (run I t0 (pre ++ [ov])).status = .running)
+    (hk : nxt.kind = .answer) (hd : nxt.delay = some d) (hlt : d < pingTimeout I) :
+    (run I t0 (pre ++ [ov] ++ [nxt])).status = .running ∧
+      (run I t0 (pre ++ [ov] ++ [nxt])).fails = 0 ∧
+      (run I t0 (pre ++ [ov] ++ [nxt])).closeAt = none ∧
+      (run I t0 (pre ++ [ov] ++ [nxt])).last =
+        max (run I t0 (pre ++ [ov])).free (gridAfter I (run I t0 (pre ++ [ov])).last) ∧
+      (run I t0 (pre ++ [ov] ++ [nxt])).free = (run I t0 (pre ++ [ov] ++ [nxt])).last + d := by
+  have hok : observe (pingTimeout I) nxt = .ok d := by
+    unfold observe
+    rw [hd]
+    simp [hlt, hk]
+  obtain ⟨a1, a2, a3⟩ := answer_resets I t0 (pre ++ [ov]) nxt d hr hok
+  have hnone : (run I t0 (pre ++ [ov])).closeAt = none := by
+    obtain ⟨_, hst⟩ := inv_run I t0 (pre ++ [ov])
+    rw [hr] at hst; exact hst.2.2.1
+  refine ⟨a1, a2, by rw [a3, hnone], ?_, ?_⟩
+  · rw [run_snoc, step_eq_stepO, hok]
+    simp [stepO, hr, nextStart]
+  · rw [run_snoc, step_eq_stepO, hok]
+    simp [stepO, hr, Outcome.dur]
+
+/-- The same for an overrun in particular: when the overrunning ping was still in flight at the next
+tick, the following ping is issued the moment the overrun ends. -/
+theorem overrun_serves_pending_tick (I : Nat) (t0 : Int) (pre : List Script) (ov nxt : Script)
+    (hr : (run I t0 (pre ++ [ov])).status = .running)
+    (hov : gridAfter I (run I t0 (pre ++ [ov])).last ≤ (run I t0 (pre ++ [ov])).free) :
+    (run I t0 (pre ++ [ov] ++ [nxt])).last = (run I t0 (pre ++ [ov])).free := by
+  rw [run_snoc, step_eq_stepO]
+  cases observe (pingTimeout I) nxt <;> simp [stepO, hr, nextStart] <;> try omega
+  all_goals (split <;> simp <;> omega)
+
+/-! ### What `overrun_does_not_poison_next_ping` excludes
+
+A loop that takes the ping deadline from the TICK's timestamp (`tick.Add(interval/2)`) instead of
+from the instant the ping is issued behaves identically as long as no ping overruns; after an overrun
+the pending tick is stale, the next ping's context may already have expired, the ping is never
+written and is counted as a second miss although the peer reads and answers again. -/
+
+/-- One iteration with the deadline anchored at the tick's timestamp (the first grid instant after the
+previous ping was issued): the ping has only what is left of `pingTimeout I` since then. -/
+def stepStale (I T : Nat) (s : St) (sc : Script) : St :=
+  match s.status with
+  | .running =>
+    let t := nextStart I s.last s.free
+    let budget := gridAfter I s.last + pingTimeout I - t
+    let o := if budget = 0 then Outcome.fail 0 else observe budget sc
+    let s1 : St := { s with tick := s.tick + 1, pings := s.pings ++ [t], last := t, free := t + o.dur }
+    match o with
+    | .ok _ => { s1 with fails := 0 }
+    | .mnf _ => { s1 with status := .stopped }
+    | .fail d =>
+      let f := s.fails + 1
+      if tolerated f T then { s1 with fails := f }
+      else { s1 with fails := f, status := .closed, closeAt := some (t + d) }
+  | _ => s
+
+private def ovr (d : Nat) : Script := { kind := .error, delay := some d, honours := false }
+private def ans (d : Nat) : Script := { kind := .answer, delay := some d }
+private def miss : Script := { kind := .answer, delay := none }
+
+/-- Threshold 2, interval 1000: the first ping's write is blocked until 2600 (one real miss), then the
+peer answers every ping at once.  The loop keeps the session (counter back to 0, second ping issued
+at 2600, third on the grid at 3000); the stale-deadline variant closes the live session at 2600. -/
+theorem stale_deadline_counterexample :
+    (run 1000 2 [ovr 1600, ans 0, ans 0]).status = .running ∧
+    (run 1000 2 [ovr 1600, ans 0, ans 0]).fails = 0 ∧
+    (run 1000 2 [ovr 1600, ans 0, ans 0]).pings = [1000, 2600, 3000] ∧
+    ([ovr 1600, ans 0, ans 0].foldl (stepStale 1000 (threshold 2)) {}).status = .closed ∧
+    ([ovr 1600, ans 0, ans 0].foldl (stepStale 1000 (threshold 2)) {}).closeAt = some 2600 := by
+  decide
+
+/-- … and as long as no ping overruns the two loops are the same loop. -/
+theorem stepStale_eq_step_on_grid (I T : Nat) (s : St) (sc : Script)
+    (h : s.free ≤ gridAfter I s.last) (hI : 2 ≤ I) : stepStale I T s sc = step I T s sc := by
+  unfold stepStale step
+  have ht : nextStart I s.last s.free = gridAfter I s.last := Nat.max_eq_right h
+  have hb : gridAfter I s.last + pingTimeout I - nextStart I s.last s.free = pingTimeout I := by
+    rw [ht]; omega
+  have hpos : pingTimeout I ≠ 0 := by
+    simp only [pingTimeout]; omega
+  cases s.status <;> simp [hb, hpos]
+  generalize observe (pingTimeout I) sc = o
+  cases o <;> rfl
+
 /-! ## Session level: keep-alive after `Close` (stream `sessions`)
 
 The sessions' `Close` methods call `*cancelPtr` (structural fact `keepalive.cancelled_from`); the
 model of a closed session's loop is `runCancel … tc` with `tc` the instant of that call.  The
 theorems below say that from `tc` on the loop sends nothing, that everything it still does belongs
-to the one ping that was in flight at `tc` (over by `tc + I/2`), and that nothing at all happens
-after `endAt`; `close_cancels_keepalive` (CloseProps.lean — a module of its own, so that a changed
-`Close` method re-opens that proof only) ties the premise to the code: in both `Close` methods, as
-regenerated from the source, the cancellation precedes every statement that can fail or return. -/
+to the one ping that was in flight at `tc` (over by `tc + I/2` when it honours its context), and
+that nothing at all happens after `endAt`; `close_cancels_keepalive` (CloseProps.lean — a module of
+its own, so that a changed `Close` method re-opens that proof only) ties the premise to the code: in
+both `Close` methods, as regenerated from the source, the cancellation precedes every statement that
+can fail or return. -/
 
 theorem step_tick_le (I T : Nat) (s : St) (sc : Script) : s.tick ≤ (step I T s sc).tick := by
   rw [step_eq_stepO]
@@ -311,9 +542,6 @@ theorem warns_snoc (I : Nat) (t0 : Int) (scs : List Script) (sc : Script) :
   rw [warnsFrom_append]
   simp [warnsFrom, run]
 
-theorem run_tick_le_length (I : Nat) (t0 : Int) (scs : List Script) :
-    (run I t0 scs).tick ≤ scs.length := (pings_at_ticks I t0 scs).2
-
 theorem run_running_tick (I : Nat) (t0 : Int) (scs : List Script)
     (h : (run I t0 scs).status = .running) : (run I t0 scs).tick = scs.length := by
   obtain ⟨_, hst⟩ := inv_run I t0 scs
@@ -325,61 +553,38 @@ theorem run_tick_mono (I : Nat) (t0 : Int) (scs : List Script) (sc : Script) :
     (run I t0 scs).tick ≤ (run I t0 (scs ++ [sc])).tick := by
   rw [run_snoc]; exact step_tick_le _ _ _ _
 
-theorem pingEnd_succ (I : Nat) (scs : List Script) (k : Nat) :
-    pingEnd I scs (k + 1) = match scs[k]? with
-      | some sc => (k + 1) * I + (observe (pingTimeout I) sc).dur
-      | none => (k + 1) * I := rfl
-
 theorem pingEnd_append_left (I : Nat) (a b : List Script) (k : Nat) (hk : k ≤ a.length) :
-    pingEnd I (a ++ b) k = pingEnd I a k := by
-  cases k with
-  | zero => rfl
-  | succ j =>
-    rw [pingEnd_succ, pingEnd_succ, List.getElem?_append_left (by omega)]
+    pingEnd I (a ++ b) k = pingEnd I a k ∧ pingStart I (a ++ b) k = pingStart I a k := by
+  unfold pingEnd pingStart pEnd pStart obsOf
+  rw [List.map_append, List.take_append_of_le_length (by simpa using hk)]
+  exact ⟨rfl, rfl⟩
 
-theorem pingEnd_bounds (I : Nat) (scs : List Script) (k : Nat) :
-    k * I ≤ pingEnd I scs k ∧ pingEnd I scs k ≤ k * I + I / 2 := by
-  cases k with
-  | zero => simp [pingEnd]
-  | succ j =>
-    rw [pingEnd_succ]
-    cases scs[j]? with
-    | none => simp only []; omega
-    | some sc =>
-      have := observe_dur_le (pingTimeout I) sc
-      simp only [pingTimeout] at this ⊢
-      omega
+theorem pingEnd_mono (I : Nat) (scs : List Script) (j k : Nat) (h : j ≤ k) (hk : k ≤ scs.length) :
+    pingEnd I scs j ≤ pingEnd I scs k :=
+  pEnd_mono I _ j k h (by simpa [obsOf] using hk)
 
-theorem pingEnd_mono (I : Nat) (scs : List Script) (j k : Nat) (h : j ≤ k) :
-    pingEnd I scs j ≤ pingEnd I scs k := by
-  rcases Nat.lt_or_eq_of_le h with hlt | heq
-  · have h1 := (pingEnd_bounds I scs j).2
-    have h2 := (pingEnd_bounds I scs k).1
-    have : (j + 1) * I ≤ k * I := Nat.mul_le_mul_right I hlt
-    rw [Nat.add_mul] at this
-    have : I / 2 ≤ I := Nat.div_le_self I 2
-    omega
-  · rw [heq]; exact Nat.le_refl _
+theorem run_free (I : Nat) (t0 : Int) (scs : List Script) :
+    (run I t0 scs).free = pingEnd I scs (run I t0 scs).tick ∧
+      (run I t0 scs).last = pingStart I scs (run I t0 scs).tick := by
+  obtain ⟨⟨_, hl, hf⟩, _⟩ := inv_run I t0 scs
+  exact ⟨hf, hl⟩
 
 theorem endAt_running (I : Nat) (t0 : Int) (scs : List Script) (tc : Nat)
-    (h : (run I t0 (scs.take (ticksBefore I tc))).status = .running) :
-    endAt I t0 scs tc = max tc (pingEnd I (scs.take (ticksBefore I tc))
-      (run I t0 (scs.take (ticksBefore I tc))).tick) := by
+    (h : (run I t0 (scs.take (pingsBefore I tc scs))).status = .running) :
+    endAt I t0 scs tc = max tc (run I t0 (scs.take (pingsBefore I tc scs))).free := by
   simp only [endAt, h]
 
 theorem endAt_ended (I : Nat) (t0 : Int) (scs : List Script) (tc : Nat)
-    (h : (run I t0 (scs.take (ticksBefore I tc))).status ≠ .running) :
-    endAt I t0 scs tc = pingEnd I (scs.take (ticksBefore I tc))
-      (run I t0 (scs.take (ticksBefore I tc))).tick := by
-  cases hs : (run I t0 (scs.take (ticksBefore I tc))).status with
+    (h : (run I t0 (scs.take (pingsBefore I tc scs))).status ≠ .running) :
+    endAt I t0 scs tc = (run I t0 (scs.take (pingsBefore I tc scs))).free := by
+  cases hs : (run I t0 (scs.take (pingsBefore I tc scs))).status with
   | running => exact absurd hs h
   | closed => simp only [endAt, hs]
   | stopped => simp only [endAt, hs]
 
-theorem pingEnd_le_endAt (I : Nat) (t0 : Int) (scs : List Script) (tc : Nat) :
-    pingEnd I (scs.take (ticksBefore I tc)) (run I t0 (scs.take (ticksBefore I tc))).tick
-      ≤ endAt I t0 scs tc := by
-  by_cases h : (run I t0 (scs.take (ticksBefore I tc))).status = .running
+theorem free_le_endAt (I : Nat) (t0 : Int) (scs : List Script) (tc : Nat) :
+    (run I t0 (scs.take (pingsBefore I tc scs))).free ≤ endAt I t0 scs tc := by
+  by_cases h : (run I t0 (scs.take (pingsBefore I tc scs))).status = .running
   · rw [endAt_running I t0 scs tc h]; exact Nat.le_max_right _ _
   · rw [endAt_ended I t0 scs tc h]; exact Nat.le_refl _
 
@@ -394,7 +599,7 @@ theorem warns_at_ping_ends (I : Nat) (t0 : Int) (scs : List Script) :
     rcases List.mem_append.1 hw with h | h
     · obtain ⟨k, h1, h2, h3⟩ := ih w h
       refine ⟨k, h1, Nat.le_trans h2 (run_tick_mono I t0 scs sc), ?_⟩
-      rw [h3, pingEnd_append_left]
+      rw [h3, (pingEnd_append_left I scs [sc] k _).1]
       exact Nat.le_trans h2 (run_tick_le_length I t0 scs)
     · unfold warnStep at h
       cases hs : (run I t0 scs).status with
@@ -418,51 +623,149 @@ theorem warns_at_ping_ends (I : Nat) (t0 : Int) (scs : List Script) :
                 exact this
               simp [stepO, hs, hlt, htick]
             refine ⟨scs.length + 1, by omega, by omega, ?_⟩
-            rw [h, htick, pingEnd_succ]
-            simp [ho, Outcome.dur]
+            have hsc : (scs ++ [sc])[scs.length]? = some sc := by simp
+            obtain ⟨e1, e2⟩ := (pings_at_pending_ticks I t0 (scs ++ [sc])).2.2.2 scs.length sc hsc
+            obtain ⟨f1, f2⟩ := run_free I t0 scs
+            obtain ⟨g1, g2⟩ := pingEnd_append_left I scs [sc] scs.length (Nat.le_refl _)
+            rw [h, e2, e1, g1, g2, ← htick, ← f1, ← f2, ho]
+            rfl
           · simp at h
       | closed => rw [hs] at h; simp at h
       | stopped => rw [hs] at h; simp at h
 
-theorem ticksBefore_mul_lt (I tc : Nat) (htc : 0 < tc) : ticksBefore I tc * I < tc := by
-  unfold ticksBefore
-  by_cases hI : I = 0
-  · simp [hI]; exact htc
-  · simp only [hI, if_false]
-    have := Nat.div_mul_le_self (tc - 1) I
-    omega
+/-! ### Which pings are issued before the cancellation -/
 
-/-- **cancel_stops_pings.** Whatever the peer does and whenever `Close` is called, every ping of
-the cancelled loop was sent strictly before the cancellation instant: once cancelled, the loop sends
-nothing more.  (`tc` is not a tick instant; a tick that coincides with the cancellation is a
-scheduler choice of `select` and outside the scenarios.) -/
-theorem cancel_stops_pings (I : Nat) (t0 : Int) (scs : List Script) (tc : Nat) (htc : 0 < tc) :
+theorem tmFrom_cons (I : Nat) (t : Tm) (o : Outcome) (os : List Outcome) :
+    tmFrom I t (o :: os) = tmFrom I (tmStep I t o) os := rfl
+
+/-- `pingsBeforeFrom` counts a prefix of the scripts; all its pings are issued before `tc`; and if it
+stops before the end of the scripts, the next ping would be issued at `tc` or later. -/
+theorem pingsBeforeFrom_spec (I tc : Nat) : ∀ (scs : List Script) (t : Tm),
+    pingsBeforeFrom I tc t.last t.free scs ≤ scs.length ∧
+    (∀ p ∈ (tmFrom I t (obsOf I (scs.take (pingsBeforeFrom I tc t.last t.free scs)))).pings,
+      p ∈ t.pings ∨ p < tc) ∧
+    (pingsBeforeFrom I tc t.last t.free scs < scs.length →
+      tc ≤ nextStart I (tmFrom I t (obsOf I (scs.take (pingsBeforeFrom I tc t.last t.free scs)))).last
+        (tmFrom I t (obsOf I (scs.take (pingsBeforeFrom I tc t.last t.free scs)))).free) := by
+  intro scs
+  induction scs with
+  | nil => intro t; simp [pingsBeforeFrom, obsOf, tmFrom]; exact fun p h => Or.inl h
+  | cons sc rest ih =>
+    intro t
+    by_cases hp : nextStart I t.last t.free < tc
+    · have hn : pingsBeforeFrom I tc t.last t.free (sc :: rest) =
+          pingsBeforeFrom I tc (tmStep I t (observe (pingTimeout I) sc)).last
+            (tmStep I t (observe (pingTimeout I) sc)).free rest + 1 := by
+        simp [pingsBeforeFrom, hp, tmStep]
+      obtain ⟨i1, i2, i3⟩ := ih (tmStep I t (observe (pingTimeout I) sc))
+      rw [hn]
+      simp only [List.take_succ_cons, obsOf, List.map_cons, tmFrom_cons, List.length_cons]
+      refine ⟨by omega, ?_, fun hlt => i3 (by omega)⟩
+      intro p hp'
+      rcases i2 p hp' with h | h
+      · simp only [tmStep, List.mem_append, List.mem_singleton] at h
+        rcases h with h | h
+        · exact Or.inl h
+        · right; rw [h]; exact hp
+      · exact Or.inr h
+    · have hn : pingsBeforeFrom I tc t.last t.free (sc :: rest) = 0 := by
+        simp [pingsBeforeFrom, hp]
+      rw [hn]
+      simp only [List.take_zero, obsOf, List.map_nil, tmFrom, List.foldl_nil, List.length_cons]
+      exact ⟨by omega, fun p h => Or.inl h, fun _ => by omega⟩
+
+theorem tmFrom_pings_prefix (I : Nat) (os : List Outcome) : ∀ t : Tm,
+    ∃ l, (tmFrom I t os).pings = t.pings ++ l := by
+  induction os with
+  | nil => intro t; exact ⟨[], by simp [tmFrom]⟩
+  | cons o rest ih =>
+    intro t
+    obtain ⟨l, hl⟩ := ih (tmStep I t o)
+    exact ⟨nextStart I t.last t.free :: l, by rw [tmFrom_cons, hl]; simp [tmStep]⟩
+
+theorem tm_take_pings_subset (I : Nat) (os : List Outcome) (k : Nat) :
+    ∀ p ∈ (tm I (os.take k)).pings, p ∈ (tm I os).pings := by
+  intro p hp
+  have : tm I os = tmFrom I (tm I (os.take k)) (os.drop k) := by
+    have h := List.take_append_drop k os
+    unfold tm tmFrom
+    rw [← List.foldl_append, h]
+  obtain ⟨l, hl⟩ := tmFrom_pings_prefix I (os.drop k) (tm I (os.take k))
+  rw [this, hl]
+  exact List.mem_append.2 (Or.inl hp)
+
+/-- **cancel_stops_pings.** Whatever the peer does, however long its pings take and whenever `Close` is
+called, every ping of the cancelled loop was issued strictly before the cancellation instant: once
+cancelled, the loop sends nothing more.  (`tc` is not an instant at which a ping is due; a tick that
+coincides with the cancellation is a scheduler choice of `select` and outside the scenarios.) -/
+theorem cancel_stops_pings (I : Nat) (t0 : Int) (scs : List Script) (tc : Nat) :
     ∀ p ∈ (runCancel I t0 scs tc).pings, p < tc := by
   intro p hp
-  have hpings : (runCancel I t0 scs tc).pings = (run I t0 (scs.take (ticksBefore I tc))).pings :=
+  have hpings : (runCancel I t0 scs tc).pings = (run I t0 (scs.take (pingsBefore I tc scs))).pings :=
     ((silent_stop I t0 scs).2 tc).2.2.1
   rw [hpings] at hp
-  obtain ⟨hpt, hlen⟩ := pings_at_ticks I t0 (scs.take (ticksBefore I tc))
+  obtain ⟨⟨hpt, _, _⟩, _⟩ := inv_run I t0 (scs.take (pingsBefore I tc scs))
   rw [hpt] at hp
-  simp only [tickTimes, List.mem_map, List.mem_range] at hp
-  obtain ⟨j, hj, rfl⟩ := hp
-  have h1 : (run I t0 (scs.take (ticksBefore I tc))).tick ≤ ticksBefore I tc := by
-    have : (scs.take (ticksBefore I tc)).length ≤ ticksBefore I tc := by
-      rw [List.length_take]; exact Nat.min_le_left _ _
-    omega
-  have h2 : (j + 1) * I ≤ ticksBefore I tc * I := Nat.mul_le_mul_right I (by omega)
-  have := ticksBefore_mul_lt I tc htc
-  omega
+  have hmem := tm_take_pings_subset I _ _ p hp
+  have hspec := (pingsBeforeFrom_spec I tc scs {}).2.1 p
+  rcases hspec (by simpa [tm, pingsBefore] using hmem) with h | h
+  · simp at h
+  · exact h
 
-/-- What the peer or the transport does (or would have done) from the cancellation on is
-irrelevant: the cancelled run, its log records and its end depend only on the pings before `tc`. -/
-theorem cancel_ignores_later_outcomes (I : Nat) (t0 : Int) (scs scs' : List Script) (tc : Nat)
-    (h : scs.take (ticksBefore I tc) = scs'.take (ticksBefore I tc)) :
-    runCancel I t0 scs tc = runCancel I t0 scs' tc ∧
-      warnsCancel I t0 scs tc = warnsCancel I t0 scs' tc ∧ endAt I t0 scs tc = endAt I t0 scs' tc := by
+theorem pingsBeforeFrom_append (I tc : Nat) (b : List Script) : ∀ (a : List Script) (t : Tm),
+    pingsBeforeFrom I tc t.last t.free (a ++ b) =
+      if pingsBeforeFrom I tc t.last t.free a = a.length then
+        a.length + pingsBeforeFrom I tc (tmFrom I t (obsOf I a)).last (tmFrom I t (obsOf I a)).free b
+      else pingsBeforeFrom I tc t.last t.free a := by
+  intro a
+  induction a with
+  | nil => intro t; simp [pingsBeforeFrom, obsOf, tmFrom]
+  | cons sc rest ih =>
+    intro t
+    by_cases hp : nextStart I t.last t.free < tc
+    · have hcons : ∀ l, pingsBeforeFrom I tc t.last t.free (sc :: l) =
+          pingsBeforeFrom I tc (tmStep I t (observe (pingTimeout I) sc)).last
+            (tmStep I t (observe (pingTimeout I) sc)).free l + 1 := by
+        intro l; simp [pingsBeforeFrom, hp, tmStep]
+      rw [List.cons_append, hcons, hcons, ih (tmStep I t (observe (pingTimeout I) sc))]
+      simp only [List.length_cons, obsOf, List.map_cons, tmFrom_cons]
+      split
+      · rename_i h; rw [if_pos (by omega)]; omega
+      · rename_i h; rw [if_neg (by omega)]
+    · simp [pingsBeforeFrom, hp]
+
+/-- **cancel_ignores_later_outcomes.** Let `pre` be the pings issued before the cancellation and let
+the loop have been about to go on (`post ≠ []`).  What the peer or the transport does (or would have
+done) to the later pings is irrelevant: the cancelled run, its log records and its end depend only on
+`pre`. -/
+theorem cancel_ignores_later_outcomes (I : Nat) (t0 : Int) (pre post post' : List Script) (tc : Nat)
+    (h : pingsBefore I tc (pre ++ post) = pre.length) (hne : post ≠ []) :
+    runCancel I t0 (pre ++ post) tc = runCancel I t0 (pre ++ post') tc ∧
+      warnsCancel I t0 (pre ++ post) tc = warnsCancel I t0 (pre ++ post') tc ∧
+      endAt I t0 (pre ++ post) tc = endAt I t0 (pre ++ post') tc := by
+  have h' : pingsBefore I tc (pre ++ post') = pre.length := by
+    unfold pingsBefore at h ⊢
+    have e := pingsBeforeFrom_append I tc post pre {}
+    have e' := pingsBeforeFrom_append I tc post' pre {}
+    rw [e] at h
+    rw [e']
+    split at h
+    · rename_i hfull
+      rw [if_pos hfull]
+      cases post with
+      | nil => exact absurd rfl hne
+      | cons x xs =>
+        have hz : ¬ nextStart I (tmFrom I {} (obsOf I pre)).last (tmFrom I {} (obsOf I pre)).free < tc := by
+          intro hlt
+          simp [pingsBeforeFrom, hlt] at h
+        cases post' with
+        | nil => simp [pingsBeforeFrom]
+        | cons y ys => simp [pingsBeforeFrom, hz]
+    · rename_i hnot
+      exact absurd h hnot
   unfold runCancel warnsCancel endAt
-  rw [h]
-  exact ⟨rfl, rfl, rfl⟩
+  rw [h, h']
+  simp
 
 /-- **nothing_after_end.** `endAt` really is the end: the cancelled loop's pings, its WARN records and
 its `Close` (with the ERROR record) all happen at or before `endAt`, and `endAt` is the closing
@@ -472,20 +775,22 @@ theorem nothing_after_end (I : Nat) (t0 : Int) (scs : List Script) (tc : Nat) :
     (∀ w ∈ warnsCancel I t0 scs tc, w ≤ endAt I t0 scs tc) ∧
     (∀ c, (runCancel I t0 scs tc).closeAt = some c → c = endAt I t0 scs tc) := by
   have hsil := (silent_stop I t0 scs).2 tc
-  generalize hpre : scs.take (ticksBefore I tc) = pre at hsil
+  have hfe := free_le_endAt I t0 scs tc
+  have hended := endAt_ended I t0 scs tc
+  generalize hpre : scs.take (pingsBefore I tc scs) = pre at hsil hfe hended
+  have htl := run_tick_le_length I t0 pre
+  obtain ⟨hfree, _⟩ := run_free I t0 pre
   have hend : ∀ k, k ≤ (run I t0 pre).tick → pingEnd I pre k ≤ endAt I t0 scs tc := by
     intro k hk
-    have h1 := pingEnd_mono I pre k _ hk
-    have h2 := pingEnd_le_endAt I t0 scs tc
-    rw [hpre] at h2
+    have h1 := pingEnd_mono I pre k _ hk htl
     omega
   refine ⟨?_, ?_, ?_⟩
   · intro p hp
-    rw [hsil.2.2.1, (pings_at_ticks I t0 pre).1] at hp
-    simp only [tickTimes, List.mem_map, List.mem_range] at hp
+    rw [hsil.2.2.1, (pings_at_pending_ticks I t0 pre).1] at hp
+    simp only [List.mem_map, List.mem_range] at hp
     obtain ⟨j, hj, rfl⟩ := hp
-    have := hend (j + 1) (by omega)
-    have := (pingEnd_bounds I pre (j + 1)).1
+    have h1 := hend (j + 1) (by omega)
+    have h2 : pingStart I pre (j + 1) ≤ pingEnd I pre (j + 1) := pStart_le_pEnd I _ _
     omega
   · intro w hw
     unfold warnsCancel at hw
@@ -494,65 +799,61 @@ theorem nothing_after_end (I : Nat) (t0 : Int) (scs : List Script) (tc : Nat) :
     exact hend k h2
   · intro c hc
     rw [hsil.2.1] at hc
-    obtain ⟨_, hst⟩ := inv_run I t0 pre
-    cases hs : (run I t0 pre).status with
-    | running => rw [hs] at hst; rw [hst.2.2.1] at hc; cases hc
-    | stopped => rw [hs] at hst; obtain ⟨d, _, _, _, h4, _⟩ := hst; rw [h4] at hc; cases hc
-    | closed =>
-      rw [hs] at hst
-      obtain ⟨d, h1, h2, h3, h4, _⟩ := hst
-      rw [h4] at hc
-      injection hc with hc
-      have hne : (run I t0 (scs.take (ticksBefore I tc))).status ≠ .running := by rw [hpre, hs]; simp
-      rw [endAt_ended I t0 scs tc hne, hpre]
-      obtain ⟨j, hj⟩ : ∃ j, (run I t0 pre).tick = j + 1 := ⟨(run I t0 pre).tick - 1, by omega⟩
-      rw [hj] at h3 hc ⊢
-      simp only [Nat.add_sub_cancel, obsOf, List.getElem?_map] at h3
-      rw [pingEnd_succ]
-      cases hsc : pre[j]? with
-      | none => rw [hsc] at h3; simp at h3
-      | some sc =>
-        rw [hsc] at h3
-        simp only [Option.map_some, Option.some.injEq] at h3
-        simp [h3, Outcome.dur, ← hc]
+    have hcl : (run I t0 pre).status = .closed := by
+      obtain ⟨_, hst⟩ := inv_run I t0 pre
+      cases hs : (run I t0 pre).status with
+      | running => rw [hs] at hst; rw [hst.2.2.1] at hc; cases hc
+      | stopped => rw [hs] at hst; obtain ⟨d, _, _, _, h4, _⟩ := hst; rw [h4] at hc; cases hc
+      | closed => rfl
+    obtain ⟨c', hc', _, hcf, _⟩ := close_time_bound I t0 pre hcl
+    rw [hc'] at hc
+    injection hc with hc
+    rw [hended (by rw [hcl]; simp), ← hc, hcf]
 
 /-- **cancel_ends_promptly.** The goroutine of a cancelled loop returns at the cancellation instant
-or, when a ping was in flight then, when that ping is over — at most one ping timeout (`I/2`)
-later; it never returns before the cancellation unless it had ended by itself. -/
-theorem cancel_ends_promptly (I : Nat) (t0 : Int) (scs : List Script) (tc : Nat) (htc : 0 < tc) :
-    endAt I t0 scs tc ≤ tc + I / 2 ∧
-      ((run I t0 (scs.take (ticksBefore I tc))).status = .running → tc ≤ endAt I t0 scs tc) := by
-  have hlen : (run I t0 (scs.take (ticksBefore I tc))).tick ≤ ticksBefore I tc := by
-    have h1 := run_tick_le_length I t0 (scs.take (ticksBefore I tc))
-    have : (scs.take (ticksBefore I tc)).length ≤ ticksBefore I tc := by
-      rw [List.length_take]; exact Nat.min_le_left _ _
-    omega
-  have hb := (pingEnd_bounds I (scs.take (ticksBefore I tc)) (run I t0 (scs.take (ticksBefore I tc))).tick).2
-  have hm : (run I t0 (scs.take (ticksBefore I tc))).tick * I ≤ ticksBefore I tc * I :=
-    Nat.mul_le_mul_right I hlen
-  have := ticksBefore_mul_lt I tc htc
-  constructor
-  · by_cases h : (run I t0 (scs.take (ticksBefore I tc))).status = .running
+or, when a ping was in flight then, when that ping is over — at most one ping timeout (`I/2`) later
+if that ping honours its context; it never returns before the cancellation unless it had ended by
+itself. -/
+theorem cancel_ends_promptly (I : Nat) (t0 : Int) (scs : List Script) (tc : Nat) :
+    ((∀ sc, (scs.take (pingsBefore I tc scs))[(run I t0 (scs.take (pingsBefore I tc scs))).tick - 1]?
+        = some sc → sc.honours = true) → endAt I t0 scs tc ≤ tc + I / 2) ∧
+      ((run I t0 (scs.take (pingsBefore I tc scs))).status = .running → tc ≤ endAt I t0 scs tc) ∧
+      (endAt I t0 scs tc = tc ∨
+        endAt I t0 scs tc = (run I t0 (scs.take (pingsBefore I tc scs))).free) := by
+  have hstop := cancel_stops_pings I t0 scs tc
+  rw [((silent_stop I t0 scs).2 tc).2.2.1] at hstop
+  have hclk := run_clock I t0 (scs.take (pingsBefore I tc scs))
+  refine ⟨?_, ?_, ?_⟩
+  · intro hh
+    have hfree : (run I t0 (scs.take (pingsBefore I tc scs))).free ≤ tc + I / 2 := by
+      rcases hclk with ⟨_, h0, _⟩ | ⟨sc, hsc, _, hfree, hmem⟩
+      · omega
+      · have := hstop _ hmem
+        have := observe_dur_le (pingTimeout I) sc (hh sc hsc)
+        have : pingTimeout I = I / 2 := rfl
+        omega
+    by_cases h : (run I t0 (scs.take (pingsBefore I tc scs))).status = .running
     · rw [endAt_running I t0 scs tc h]; omega
     · rw [endAt_ended I t0 scs tc h]; omega
   · intro hr
     rw [endAt_running I t0 scs tc hr]; omega
+  · by_cases h : (run I t0 (scs.take (pingsBefore I tc scs))).status = .running
+    · rw [endAt_running I t0 scs tc h]; omega
+    · right; exact endAt_ended I t0 scs tc h
 
 /-! ## Non-vacuity -/
-
-private def miss : Script := { kind := .answer, delay := none }
-private def ans (d : Nat) : Script := { kind := .answer, delay := some d }
 
 -- threshold 2, interval 1000: miss, answer, miss, miss → closed at tick 4, at 4·1000 + 500
 example : (run 1000 2 [miss, ans 7, miss, miss, ans 1]).closeAt = some 4500 := by decide
 example : (run 1000 2 [miss, ans 7, miss, miss, ans 1]).tick = 4 := by decide
 -- threshold 0 means 1: the first failure closes; a slow error (≥ I/2) counts as a timeout
-example : (run 1000 0 [ans 499, ⟨.error, some 500⟩]).closeAt = some 2500 := by decide
+example : (run 1000 0 [ans 499, ⟨.error, some 500, true⟩]).closeAt = some 2500 := by decide
 -- alternating miss/answer never closes with threshold 2
 example : (run 1000 2 [miss, ans 0, miss, ans 0, miss]).status = .running := by decide
 -- method-not-found stops silently, later failures are not even pinged
-example : (run 1000 1 [⟨.mnf, some 3⟩, miss]) =
-    { status := .stopped, fails := 0, tick := 1, pings := [1000], closeAt := none } := by decide
+example : (run 1000 1 [⟨.mnf, some 3, true⟩, miss]) =
+    { status := .stopped, fails := 0, tick := 1, pings := [1000], closeAt := none,
+      last := 1000, free := 1003 } := by decide
 -- cancellation between tick 1 and tick 2 (at 1700): the second miss is never pinged
 example : (runCancel 1000 2 [miss, miss] 1700).status = .stopped ∧
     (runCancel 1000 2 [miss, miss] 1700).pings = [1000] := by decide
@@ -565,5 +866,18 @@ example : (runCancel 1000 3 [ans 0, miss, miss, miss, miss] 2407).pings = [1000,
     (runCancel 1000 3 [ans 0, miss, miss, miss, miss] 2407).closeAt = none := by decide
 -- Close between two ticks: the loop ends at the Close itself
 example : endAt 1000 3 [ans 0, ans 20] 2777 = 2777 := by decide
+
+-- an overrun: ping 1 blocked until 3600 (ticks 2000 and 3000 fire meanwhile: one stays pending, one
+-- is dropped); ping 2 at once at 3600, ping 3 on the grid at 4000; two overruns in a row close
+example : (run 1000 3 [ovr 2600, ans 10, ans 0]).pings = [1000, 3600, 4000] ∧
+    (run 1000 3 [ovr 2600, ans 10, ans 0]).fails = 0 := by decide
+example : (run 1000 2 [ovr 700, ovr 1600]).closeAt = some 3600 ∧
+    (run 1000 2 [ovr 700, ovr 1600]).pings = [1000, 2000] := by decide
+-- Close at 1500 while ping 1 is blocked until 2600: nothing more is sent, the loop ends at 2600
+example : (runCancel 1000 2 [ovr 1600, ans 0] 1500).pings = [1000] ∧
+    endAt 1000 2 [ovr 1600, ans 0] 1500 = 2600 ∧ warnsCancel 1000 2 [ovr 1600, ans 0] 1500 = [2600] := by
+  decide
+-- Close at 2700, just after the pending tick was served at 2600
+example : (runCancel 1000 2 [ovr 1600, ans 0, ans 0] 2700).pings = [1000, 2600] := by decide
 
 end KeepAlive
